@@ -2,6 +2,9 @@ package main
 
 import (
 	"fmt"
+	"sync/atomic"
+
+	"cuelang.org/go/cue"
 	"strconv"
 	"strings"
 	"unicode"
@@ -15,28 +18,38 @@ import (
 
 // probe contexts: where a single string is placed in a small document.
 type pctx struct {
-	name   string
-	prefix string // text before the scalar in the encoded document
-	isKey  bool
-	build  func(s string) *T
+	name    string
+	prefix  string // text before the scalar in the encoded document
+	isKey   bool
+	build   func(s string) *T
+	trailer string // text after the scalar's own text (contexts with a following node)
 }
 
 var one = &T{K: 'i', S: "1"}
 
 var pctxs = []pctx{
-	{"R", "", false, func(s string) *T { return str(s) }},
-	{"V", "k: ", false, func(s string) *T { return &T{K: 'M', Keys: []string{"k"}, Kids: []*T{str(s)}} }},
-	{"K", "", true, func(s string) *T { return &T{K: 'M', Keys: []string{s}, Kids: []*T{one}} }},
-	{"E", "- ", false, func(s string) *T { return &T{K: 'L', Kids: []*T{str(s)}} }},
+	{"R", "", false, func(s string) *T { return str(s) }, ""},
+	{"V", "k: ", false, func(s string) *T { return &T{K: 'M', Keys: []string{"k"}, Kids: []*T{str(s)}} }, ""},
+	{"K", "", true, func(s string) *T { return &T{K: 'M', Keys: []string{s}, Kids: []*T{one}} }, ""},
+	{"E", "- ", false, func(s string) *T { return &T{K: 'L', Kids: []*T{str(s)}} }, ""},
 	{"NV", "a:\n  b: ", false, func(s string) *T {
 		return &T{K: 'M', Keys: []string{"a"}, Kids: []*T{{K: 'M', Keys: []string{"b"}, Kids: []*T{str(s)}}}}
-	}},
+	}, ""},
 	{"NK", "a:\n  ", true, func(s string) *T {
 		return &T{K: 'M', Keys: []string{"a"}, Kids: []*T{{K: 'M', Keys: []string{s}, Kids: []*T{one}}}}
-	}},
+	}, ""},
 	{"NE", "a:\n  - ", false, func(s string) *T {
 		return &T{K: 'M', Keys: []string{"a"}, Kids: []*T{{K: 'L', Kids: []*T{str(s)}}}}
-	}},
+	}, ""},
+	// the same value positions, followed by another node
+	{"VF", "k: ", false, func(s string) *T { return &T{K: 'M', Keys: []string{"k", "z"}, Kids: []*T{str(s), one}} }, "z: 1\n"},
+	{"EF", "- ", false, func(s string) *T { return &T{K: 'L', Kids: []*T{str(s), one}} }, "- 1\n"},
+	{"NVF", "a:\n  b: ", false, func(s string) *T {
+		return &T{K: 'M', Keys: []string{"a"}, Kids: []*T{{K: 'M', Keys: []string{"b", "z"}, Kids: []*T{str(s), one}}}}
+	}, "  z: 1\n"},
+	{"NEF", "a:\n  - ", false, func(s string) *T {
+		return &T{K: 'M', Keys: []string{"a"}, Kids: []*T{{K: 'L', Kids: []*T{str(s), one}}}}
+	}, "  - 1\n"},
 }
 
 // probe runs one string in one context.  Case line:
@@ -46,12 +59,12 @@ var pctxs = []pctx{
 // Impl line:
 //
 //	style=<P|S|D|L|X> rt=<0|1> back=<canon or DECERR..>
-func probe(pc pctx, s string, multiSrc bool) (caseLine, implLine string, ok bool) {
+func probe(ctx *cue.Context, pc pctx, s string, multiSrc bool) (caseLine, implLine string, ok bool) {
 	t := pc.build(s)
 	// v.Syntax() writes struct field values and the root value as multi-line
 	// literals iff they contain a newline; list elements keep the source form.
 	multi := strings.Contains(s, "\n")
-	if pc.name == "E" || pc.name == "NE" {
+	if strings.Contains(pc.name, "E") {
 		multi = multiSrc
 		setMulti(t, multiSrc)
 	}
@@ -61,11 +74,11 @@ func probe(pc pctx, s string, multiSrc bool) (caseLine, implLine string, ok bool
 		// the value is not what we meant to build (harness problem)
 		return "", "", false
 	}
-	text, back := roundTrip(v)
+	text, back := roundTrip(ctx, v)
 	rest := "?"
 	style := "X"
-	if strings.HasPrefix(text, pc.prefix) && back != "ENCERR" {
-		rest = text[len(pc.prefix):]
+	if strings.HasPrefix(text, pc.prefix) && strings.HasSuffix(text, pc.trailer) && len(text) >= len(pc.prefix)+len(pc.trailer) && back != "ENCERR" {
+		rest = text[len(pc.prefix) : len(text)-len(pc.trailer)]
 		switch {
 		case rest == "":
 			style = "X"
@@ -91,7 +104,7 @@ func probe(pc pctx, s string, multiSrc bool) (caseLine, implLine string, ok bool
 			np = append(np, strconv.FormatInt(int64(r), 16))
 		}
 		if unicode.IsPrint(r) != strconv.IsPrint(r) {
-			oracleDisagree++
+			atomic.AddInt64(&oracleDisagree, 1)
 		}
 	}
 	nps := "-"
@@ -114,7 +127,7 @@ func probe(pc pctx, s string, multiSrc bool) (caseLine, implLine string, ok bool
 	return caseLine, implLine, true
 }
 
-var oracleDisagree int
+var oracleDisagree int64
 
 func setMulti(t *T, m bool) {
 	if t.K == 's' {
